@@ -213,6 +213,28 @@ func (w *World) checkFeeAndTx(v view, present map[int]bool, after string) {
 			recNonDust++
 		}
 	}
+	// every recorded output index must point at an output of exactly that
+	// HTLC's value, and no two HTLCs may share an index
+	if c.CommitTx != nil {
+		used := map[int32]bool{}
+		for i := range c.Htlcs {
+			idx := c.Htlcs[i].OutputIndex
+			if idx < 0 {
+				continue
+			}
+			if int(idx) >= len(c.CommitTx.TxOut) {
+				w.violate("htlc-output-index-out-of-range", fmt.Sprintf("after %s: %s height %d: HTLC %d records output index %d of %d outputs", after, v.label, c.CommitHeight, c.Htlcs[i].HtlcIndex, idx, len(c.CommitTx.TxOut)))
+				continue
+			}
+			if used[idx] {
+				w.violate("htlc-output-index-shared", fmt.Sprintf("after %s: %s height %d: two HTLCs record output index %d", after, v.label, c.CommitHeight, idx))
+			}
+			used[idx] = true
+			if got, want := c.CommitTx.TxOut[idx].Value, int64(c.Htlcs[i].Amt)/1000; got != want {
+				w.violate("htlc-output-index-wrong-value", fmt.Sprintf("after %s: %s height %d: HTLC id %d (incoming=%v) of %d sat records output index %d, which is worth %d sat", after, v.label, c.CommitHeight, c.Htlcs[i].HtlcIndex, c.Htlcs[i].Incoming, want, idx, got))
+			}
+		}
+	}
 	if recNonDust != nonDust {
 		w.violate("dust-classification", fmt.Sprintf("after %s: %s height %d records %d HTLC outputs, first-principles dust rule (dust %d, fee/kw %d) gives %d", after, v.label, c.CommitHeight, recNonDust, ownerDust, c.FeePerKw, nonDust))
 	}
